@@ -2319,8 +2319,33 @@ int32_t checkPathLenConstraint(psX509Cert_t *ic,
           Subtract one from pathLen in this case since one got
           added when it was truly just self-authenticating.
         */
+        /* Same certificate: equal TBS digest, subject and serial number; where
+           no digest is computed (Ed25519: sigHash stays empty) also equal TBS
+           bytes. The signature bytes cannot be used: RSA verification
+           overwrites them in place. */
+        psBool_t same = PS_FALSE;
+
         if (sc->sigHashLen == ic->sigHashLen &&
-                memcmpct(sc->sigHash, ic->sigHash, sc->sigHashLen) == 0)
+                memcmpct(sc->sigHash, ic->sigHash, sc->sigHashLen) == 0 &&
+                memcmpct(sc->subject.hash, ic->subject.hash,
+                    SHA1_HASH_SIZE) == 0 &&
+                sc->serialNumberLen == ic->serialNumberLen &&
+                sc->serialNumberLen > 0 &&
+                memcmpct(sc->serialNumber, ic->serialNumber,
+                    sc->serialNumberLen) == 0)
+        {
+            same = PS_TRUE;
+# if defined(USE_ED25519) || defined(USE_ROT_ECC) || defined(USE_ROT_RSA) || (defined(USE_CL_RSA) && defined(USE_PKCS1_PSS))
+            if (sc->tbsCertStart != NULL && ic->tbsCertStart != NULL &&
+                    (sc->tbsCertLen != ic->tbsCertLen ||
+                    memcmpct(sc->tbsCertStart, ic->tbsCertStart,
+                        sc->tbsCertLen) != 0))
+            {
+                same = PS_FALSE;
+            }
+# endif
+        }
+        if (same)
         {
             if (pathLen > 0)
             {
